@@ -1,6 +1,7 @@
 (** C24 — property theorems only. *)
 From Coq Require Import List ZArith NArith Sorted.
 From C33 Require Import C24.Model C24.Spec C24.ProofsSpec C24.ProofsSim C24.Proofs.
+From C33 Require Import C24.SkipModel C24.SkipRun.
 Import ListNotations.
 Open Scope Z_scope.
 
@@ -98,3 +99,46 @@ Theorem C24_push_total : forall cap ops it,
   snd (q_push it (q_final cap ops)) <> EPanic.
 Proof. exact push_total. Qed.
 Print Assumptions C24_push_total.
+
+(** Layer 2.  The multi-level skip list (nodes with next arrays, prev, tail,
+    level; random levels drawn from an arbitrary stream [rnd]) started empty:
+    every history of Insert / Delete / Find / FindGreaterOrEqual / in-place
+    update runs without nil dereference, index error or unbounded loop, returns
+    exactly what the level-0 sorted list of the Queue model returns
+    ([sl_insert] / [sl_delete] / [sl_find] / [sl_update]), and its level-0 chain
+    read forwards (Walk), backwards over prev from tail (Iterator.Last / Prev),
+    First, Last and Len are those of that list. *)
+Theorem C24_skiplist_refines_level0 :
+  forall (V : Type) (ms : Z) (mv : V) (rnd : list Z) (ops : list (sop V)),
+  let l := fst (l0_run ops []) in
+  exists sk,
+    sk_run ops (sk_new ms mv) rnd = Ok (sk, snd (l0_run ops [])) /\
+    sk_walk sk = Ok l /\
+    sk_back sk = Ok (rev l) /\
+    sk_first sk = Ok (hd_error l) /\
+    sk_last sk = last_opt l /\
+    scount sk = length l.
+Proof. exact @skiplist_refines. Qed.
+Print Assumptions C24_skiplist_refines_level0.
+
+(** Results and contents do not depend on the level stream. *)
+Theorem C24_skiplist_level_independent :
+  forall (V : Type) (ms : Z) (mv : V) (rnd1 rnd2 : list Z) (ops : list (sop V)),
+  exists sk1 sk2 rs,
+    sk_run ops (sk_new ms mv) rnd1 = Ok (sk1, rs) /\
+    sk_run ops (sk_new ms mv) rnd2 = Ok (sk2, rs) /\
+    sk_walk sk1 = sk_walk sk2 /\ sk_back sk1 = sk_back sk2 /\
+    sk_first sk1 = sk_first sk2 /\ sk_last sk1 = sk_last sk2 /\ scount sk1 = scount sk2.
+Proof. exact @skiplist_level_independent. Qed.
+Print Assumptions C24_skiplist_level_independent.
+
+(** What the Queue model does with its skip list (insertSkipValue /
+    deleteSkipValue) are such histories. *)
+Theorem C24_queue_uses_level0 : forall it ql,
+  insert_skip it ql = fst (l0_run (insert_ops it ql) ql) /\
+  delete_skip it ql = match sl_find (iscore it) ql with
+                      | None => None
+                      | Some _ => Some (fst (l0_run (delete_ops it ql) ql))
+                      end.
+Proof. exact queue_uses_level0. Qed.
+Print Assumptions C24_queue_uses_level0.
